@@ -82,6 +82,7 @@ pub struct Harness {
     pub last_ping: BTreeMap<usize, u64>,
     pub connected_at: BTreeMap<usize, u64>,
     pub perm_verdict: Option<crate::harness_auth::Verdict>,
+    pub perm_context: String,
     pub ever_user_ids: BTreeSet<u32>,
     pub secrets: Vec<String>,
     pub old_passwords: BTreeMap<u32, Vec<String>>,
@@ -89,6 +90,8 @@ pub struct Harness {
     pub token_expiry: BTreeMap<usize, Option<(u64, u64)>>,
     pub journalled_names: Vec<String>,
 }
+
+const WIRE_ORACLE_PROPS: [&str; 5] = ["C01", "C02", "C06", "C07", "C17"];
 
 fn ok<T>(r: &Result<T, IggyError>) -> bool {
     r.is_ok()
@@ -184,6 +187,7 @@ impl Harness {
             last_ping: BTreeMap::new(),
             connected_at: BTreeMap::new(),
             perm_verdict: None,
+            perm_context: String::new(),
             ever_user_ids: [1u32].into_iter().collect(),
             secrets: vec![],
             old_passwords: BTreeMap::new(),
@@ -194,14 +198,22 @@ impl Harness {
     }
 
     pub fn on(&self, prop: &str) -> bool {
-        self.opts.props.contains("*") || self.opts.props.contains(prop)
+        self.opts.props.contains("*") || self.opts.props.contains(prop) || (self.opts.props.contains("C13") && WIRE_ORACLE_PROPS.contains(&prop))
     }
 
     pub fn violate(&mut self, prop: &'static str, oracle: &'static str, tag: impl Into<String>, detail: impl Into<String>) {
         if !self.on(prop) {
             return;
         }
-        let v = Violation { prop, oracle, tag: tag.into(), detail: detail.into(), op_index: self.op_index };
+        let mut tag: String = tag.into();
+        let mut prop = prop;
+        if self.opts.props.contains("C13") && prop != "C13" && !self.opts.props.contains("*") {
+            // C13: what the SDK returns must equal what the model predicts from what the SDK was asked to
+            // send — every model-equality oracle is a wire-agreement oracle under the C13 value swarm
+            tag = format!("{prop}.{oracle}:{tag}");
+            prop = "C13";
+        }
+        let v = Violation { prop, oracle: if prop == "C13" && oracle != "no_panic" { "exchange_equals_model" } else { oracle }, tag, detail: detail.into(), op_index: self.op_index };
         if self.verbose {
             eprintln!("[violation] {v:?}");
         }
@@ -219,7 +231,7 @@ impl Harness {
             None => true,
             Some(Verdict::Deny) => {
                 if result_ok {
-                    self.violate("C09", "no_operation_without_grant", format!("escalation:{what}"), format!("{what} succeeded although no documented rule grants it to this user"));
+                    self.violate("C09", "no_operation_without_grant", format!("escalation:{what}"), format!("{what} succeeded although no documented rule grants it to this user ({})", self.perm_context));
                     true
                 } else {
                     self.stats.probe("ungranted_request_refused");
@@ -228,7 +240,9 @@ impl Harness {
             }
             Some(Verdict::Allow) => {
                 if !result_ok && unauthorized {
-                    self.violate("C09", "documented_grant_honoured", format!("refused:{what}"), format!("{what} was refused as unauthorized although the documented hierarchy grants it"));
+                    // the statement only says "performed only if granted": a refusal of something the
+                    // documentation grants is counted, not reported (see DESIGN 4.C09)
+                    self.stats.probe("documented_grant_refused");
                     false
                 } else {
                     if result_ok {
@@ -238,6 +252,35 @@ impl Harness {
                 }
             }
             Some(Verdict::Either) => !(unauthorized && !result_ok),
+        }
+    }
+
+    /// `perm_gate` for look-ups that answer `None` instead of an error when they refuse.
+    pub fn perm_gate_found(&mut self, what: &str, found: bool, result_ok: bool, err: Option<&IggyError>) -> bool {
+        use crate::harness_auth::Verdict;
+        match self.perm_verdict {
+            None => true,
+            Some(Verdict::Deny) => {
+                if found {
+                    self.violate("C09", "no_operation_without_grant", format!("escalation:{what}"), format!("{what} returned data although no documented rule grants it to this user ({})", self.perm_context));
+                    true
+                } else {
+                    self.stats.probe("ungranted_request_refused");
+                    false
+                }
+            }
+            Some(Verdict::Allow) => {
+                if !found && (result_ok || matches!(err, Some(IggyError::Unauthorized))) {
+                    self.stats.probe("documented_grant_refused");
+                    false
+                } else {
+                    if found {
+                        self.stats.probe("granted_request_served");
+                    }
+                    true
+                }
+            }
+            Some(Verdict::Either) => found || !(result_ok || matches!(err, Some(IggyError::Unauthorized))),
         }
     }
 
@@ -283,7 +326,19 @@ impl Harness {
     // the dispatcher
     // ------------------------------------------------------------------------------------------
 
+    /// One operation under a simulated-time watchdog: simulated time only moves when every actor is
+    /// blocked, so a watchdog that fires means the operation can never complete (deadlock, lost wake-up).
     pub async fn step(&mut self, op: &Op) {
+        let limit = Duration::from_secs(48 * 3600);
+        let finished = tokio::time::timeout(limit, self.step_inner(op)).await.is_ok();
+        if !finished {
+            let prop: &'static str = crate::profiles::ALL_PROPS.iter().copied().find(|p| self.on(p)).unwrap_or("C06");
+            self.violate(prop, "bounded_liveness", format!("never_returns:{}", op.name()), format!("operation {op:?} did not return although nothing else could run any more"));
+            self.fatal = true;
+        }
+    }
+
+    async fn step_inner(&mut self, op: &Op) {
         *self.stats.ops.entry(op.name()).or_insert(0) += 1;
         if self.verbose {
             eprintln!("[op {}] {:?}", self.op_index, op);
@@ -295,6 +350,7 @@ impl Harness {
                 if let Some(need) = crate::harness_auth::need_of(&self.model, op, user) {
                     let perms = self.model.users.get(&user).and_then(|u| u.perms.clone());
                     self.perm_verdict = Some(crate::harness_auth::verdict_for(&perms, need));
+                    self.perm_context = format!("need {need:?}; user {user} record: {}", crate::snapshot::canon_permissions(&perms.as_ref().map(crate::harness_auth::to_sdk_permissions)));
                 }
             }
         }
@@ -324,6 +380,8 @@ impl Harness {
             Op::Restart(kind) => self.op_restart(*kind, false).await,
             Op::RestartLosingIndexes(kind) => self.op_restart(*kind, true).await,
             Op::Audit => self.audit().await,
+            Op::UnauthProbe { which } => crate::harness_wire::unauth_probe(self, *which).await,
+            Op::Garbage { seed } => crate::harness_wire::garbage(self, *seed).await,
             Op::Connect { c } => {
                 if self.clients[*c].is_none() && self.world.is_up() {
                     let _ = self.connect_client(*c, true).await;
@@ -478,7 +536,11 @@ impl Harness {
         for p in &partition_ids {
             let pm = &topic_model.partitions[p];
             let from = pm.msgs.len() as u64;
-            let client = self.client(c).unwrap();
+            // observed through the administrator's connection: the sender may not be allowed to poll
+            let client = match self.client(0) {
+                Some(admin) => admin,
+                None => self.client(c).unwrap(),
+            };
             let polled = client
                 .poll_messages(&IdRef::Num(sid).to_identifier(), &IdRef::Num(tid).to_identifier(), Some(*p), &Consumer::default(), &PollingStrategy::offset(from), msgs.len().max(1) as u32 + 1, false)
                 .await;
@@ -942,6 +1004,9 @@ impl Harness {
         };
         let client = self.client(c).unwrap();
         let result = client.get_consumer_offset(&consumer, &stream.to_identifier(), &topic.to_identifier(), partition).await;
+        if !self.perm_gate_found("get_consumer_offset", matches!(result, Ok(Some(_))), result.is_ok(), result.as_ref().err()) {
+            return;
+        }
         let Some((sid, tid, p, is_group, key)) = self.resolve_offset_target(stream, topic, partition, who) else {
             if let Ok(Some(info)) = &result {
                 if partition.is_some() || matches!(who, Who::Consumer(_)) {
